@@ -777,3 +777,70 @@ Definition cp2k_apply (ls : list str) (us : list cp2k_upd) (rm : list str) : opt
     | Some st => Some (cp2k_print (t_roots (fold_left cp2k_remove1 rm st)))
     end
   end.
+
+(* ------------------------------------------------------------------ G. extraction histories
+   EngineBase.dump_config -> <Engine>._extract_frame(traj_file, idx, out_file) seen as an
+   operation on the worker directory.  A directory maps file names (numbers) to the list of
+   frames the file holds; a file without any complete frame (empty, unparsable) holds [].
+   Every engine opens the output for WRITING (CP2K / TurtleMD: write_xyz_trajectory(...,
+   append=False); LAMMPS: write_lammpstrj (append defaults to False); GROMACS:
+   write_gromos96_file / shutil.copyfile; ASE: ase.io.write), so whatever the output held
+   before is gone:  extract files src k out = files[out := [frame k of src]].
+   The source is read before the output is opened (CP2K / TurtleMD return right after the
+   write, so nothing is read from a truncated source), hence src = out is covered too.
+   None = the source does not exist or has no frame k (the engines log an error or raise:
+   outside the claim). *)
+Section ExtractHistory.
+  Context {F : Type}.
+  Definition fx_dir := list (nat * list F).
+  Fixpoint fx_get (d : fx_dir) (n : nat) : option (list F) :=
+    match d with
+    | [] => None
+    | (m, c) :: r => if (m =? n)%nat then Some c else fx_get r n
+    end.
+  (* open(name, "w") + write: replace the content, or create the file *)
+  Fixpoint fx_set (d : fx_dir) (n : nat) (c : list F) : fx_dir :=
+    match d with
+    | [] => [(n, c)]
+    | (m, c0) :: r => if (m =? n)%nat then (m, c) :: r else (m, c0) :: fx_set r n c
+    end.
+  Definition fx_frame (d : fx_dir) (src k : nat) : option F :=
+    match fx_get d src with Some fs => nth_error fs k | None => None end.
+  Definition fx_extract (d : fx_dir) (src k out : nat) : option fx_dir :=
+    option_map (fun f => fx_set d out [f]) (fx_frame d src k).
+  (* the engines' _read_configuration / _reverse_velocities take the FIRST snapshot *)
+  Definition fx_read (d : fx_dir) (n : nat) : option F :=
+    match fx_get d n with Some (f :: _) => Some f | _ => None end.
+
+  Record fx_op := mkOp { o_src : nat; o_k : nat; o_out : nat }.
+  Definition fx_step (d : fx_dir) (o : fx_op) : option fx_dir := fx_extract d (o_src o) (o_k o) (o_out o).
+  Fixpoint fx_run (d : fx_dir) (ops : list fx_op) : option fx_dir :=
+    match ops with
+    | [] => Some d
+    | o :: r => match fx_step d o with Some d' => fx_run d' r | None => None end
+    end.
+  (* the directory after every operation (for the correspondence runner) *)
+  Fixpoint fx_trace (d : fx_dir) (ops : list fx_op) : list (option fx_dir) :=
+    match ops with
+    | [] => []
+    | o :: r => match fx_step d o with
+                | Some d' => Some d' :: fx_trace d' r
+                | None => [None]
+                end
+    end.
+
+  (* the variant that opens the output for APPENDING (what write_xyz_trajectory does by
+     default): refuted in proofs/CodecP.v *)
+  Definition fx_extract_append (d : fx_dir) (src k out : nat) : option fx_dir :=
+    option_map (fun f => fx_set d out (match fx_get d out with Some c => c ++ [f] | None => [f] end))
+               (fx_frame d src k).
+  Fixpoint fx_run_append (d : fx_dir) (ops : list fx_op) : option fx_dir :=
+    match ops with
+    | [] => Some d
+    | o :: r => match fx_extract_append d (o_src o) (o_k o) (o_out o) with
+                | Some d' => fx_run_append d' r
+                | None => None
+                end
+    end.
+End ExtractHistory.
+Arguments fx_dir F : clear implicits.
